@@ -67,6 +67,51 @@ CLASSES = {
     'UndefinedSequenceDescriptor': dict(bases=['Descriptor'], module='pybufrkit.descriptors', fields={}),
 }
 
+# ---- coder state ------------------------------------------------------------------------------
+BSR = TupleT(INT, INT, INT)
+BSR.names = ('nbits_increment', 'scale_increment', 'refval_factor')
+IDX_DESC = TupleT(INT, DESC)          # (flat index, element descriptor): back references / bitmapped descriptors
+
+CLASSES.update({
+    'CoderState': dict(bases=[], module='pybufrkit.coder', fields={
+        'is_compressed': BOOL, 'n_subsets': INT, 'idx_subset': INT,
+        'decoded_descriptors_all_subsets': ListT(ListT(DESC)), 'bitmap_links_all_subsets': ListT(DictT(INT, INT)),
+        'decoded_values_all_subsets': ListT(ListT(VAL)),
+        'decoded_descriptors': ListT(DESC), 'bitmap_links': DictT(INT, INT), 'decoded_values': ListT(VAL), 'idx_value': INT,
+        'nbits_offset': INT, 'scale_offset': INT, 'nbits_of_new_refval': INT, 'new_refvals': DictT(INT, VAL),
+        'nbits_of_associated': ListT(INT), 'nbits_of_skipped_local_descriptor': INT, 'bsr_modifier': BSR, 'new_nbytes': INT,
+        'data_not_present_count': INT, 'status_qa_info_follows': INT,
+        'bitmap': ListT(VAL), 'bitmapped_descriptors': ListT(IDX_DESC), 'bitmap_definition_state': INT,
+        'most_recent_bitmap_is_for_reuse': BOOL, 'n_031031': INT, 'next_bitmapped_descriptor': Ref(BI.cursor_name(IDX_DESC)),
+        'back_reference_boundary': INT, 'back_referenced_descriptors': ListT(IDX_DESC)},
+        nonnull=['decoded_descriptors_all_subsets', 'bitmap_links_all_subsets', 'decoded_values_all_subsets', 'new_refvals',
+                 'nbits_of_associated']),
+})
+
+
+_AI = z3.ArraySort(z3.IntSort(), z3.IntSort())
+# ghost record of the primitive calls a walk issues to the concrete coder (interface contracts of Coder.process_*):
+# nprims calls so far; for call k: prim[k] kind, pdesc[k] descriptor identity, pa[k] width / length / value,
+# pc[k] reference value or factor, pf[k] the 10**scale float
+CLASSES['CoderState']['ghosts'] = {'nprims': z3.IntSort(), 'prim': _AI, 'pdesc': _AI, 'pa': _AI, 'pc': _AI,
+                                   'pf': z3.ArraySort(z3.IntSort(), sort_of(FLOAT))}
+CLASSES['CoderState']['ghost_facts'] = {'nprims': lambda z: z >= 0}       # a call counter
+CLASSES.update({
+    'Coder': dict(bases=[], module='pybufrkit.coder', fields={}),
+    'BitOperator': dict(bases=[], fields={}),
+})
+
+
+def ctor_bsr(eng, ctx, st, cls, args, kwargs):
+    vals = list(args) + [kwargs[n] for n in BSR.names[len(args):]]
+    yield st, SV(BSR, eng.mk_tuple([eng.coerce(v, INT) for v in vals]).z)
+
+
+CLASSES['BSRModifier'] = dict(bases=[], fields={}, ctor=ctor_bsr)
+CLASSES[BI.cursor_name(IDX_DESC)] = BI.cursor_class_entry(IDX_DESC)
+# `logging.root.level == logging.getLevelName('DEBUG')` selects AuditedList in CoderState.__init__: assumed off (trusted base)
+CLASSES['LoggingRoot'] = dict(bases=[], fields={'level': INT}, field_facts={'level': lambda z: z != 10})
+
 # Python / library exception classes; the pybufrkit ones are read from errors.py on every run.
 EXC_BASE = {
     'BaseException': [], 'Exception': ['BaseException'],
@@ -287,7 +332,12 @@ def mf_bits(eng, e, st, ctx):
             raise Unsupported('Bits(%s)' % ','.join(keys))
 
 
-MODULE_FUNCS = {('bitstring', 'BitStream'): mf_bitstream, ('bitstring', 'Bits'): mf_bits}
+def mf_logging_level(eng, e, st, ctx):
+    # logging.getLevelName('DEBUG') == 10
+    yield st, SV(INT, I(10))
+
+
+MODULE_FUNCS = {('bitstring', 'BitStream'): mf_bitstream, ('bitstring', 'Bits'): mf_bits, ('logging', 'getLevelName'): mf_logging_level}
 
 
 # ---------------------------------------------------------------------------------------------
@@ -311,7 +361,13 @@ def name_hook(eng, ctx, st, module, name):
     return None
 
 
-OPTS = {'name_hook': name_hook}
+def modattr_hook(eng, ctx, modname, attr):
+    if (modname, attr) == ('logging', 'root'):
+        return SV(Ref('LoggingRoot'), I(-2))
+    return None
+
+
+OPTS = {'name_hook': name_hook, 'modattr_hook': modattr_hook}
 
 
 def ground_checks(db):
